@@ -122,6 +122,13 @@ def directed_periodic(base):
         + [("call", "c2"), ("step", "c2"), ("step", "c2")] + g(6),
         # cancel while running
         [("timer", "env")] + g(4) + [("call", "k1"), ("step", "k1")] + g(6),
+        # ... whatever form the cancellation takes, the goroutine must have picked it up once the instance has
+        # ended (Quiet: it does not sit in its select with the cancel signal pending) and no further instance runs
+        [("timer", "env")] + g(4) + [("call", "k1"), ("step", "k1")] + g(6) + [("quiet", "env"), ("timer", "env")] + g(4)
+        + [("quiet", "env")],
+        # the same for a cancellation that arrives after an accepted early-run request that is not yet picked up
+        [("call", "c1"), ("step", "c1"), ("step", "c1"), ("call", "k1"), ("step", "k1")] + g(8)
+        + [("quiet", "env"), ("timer", "env")] + g(4) + [("quiet", "env")],
         # an early run that is still executing when the instance's scheduled time passes: the next instance
         # must wait for ITS time (a timer object re-used across ticks must not carry the old expiry over)
         [("call", "c1"), ("step", "c1"), ("step", "c1"), ("step", "g"), ("step", "g"), ("timer", "env")] + g(8),
@@ -218,7 +225,14 @@ def run(tier):
                 extra.append(dict(x, sc=x["sc"] + 300000 + 1000 * k,
                                   plan=[dict(t, who=m.get(t["who"], t["who"])) for t in x["plan"]], apis=sorted(m.values())))
     one_off = with_apis(one_off, vf.seed()) + extra
-    periodic = with_apis(periodic, vf.seed())
+    pextra = []
+    for k in range(1, len(API_MAPS)):
+        m = API_MAPS[k]
+        for x in directed_periodic(90000):
+            if any(t["who"] in m for t in x["plan"]):
+                pextra.append(dict(x, sc=x["sc"] + 400000 + 1000 * k,
+                                   plan=[dict(t, who=m.get(t["who"], t["who"])) for t in x["plan"]], apis=sorted(m.values())))
+    periodic = with_apis(periodic, vf.seed()) + pextra
     vf.conformance(v, one_off + free, driver, "Trace_Scheduler", "Trace_Scheduler.cfg", sig_of, nontrivial,
                    dfs=True, chunk=1500)
     vf.conformance(v, periodic, driver, "Trace_Scheduler", "Trace_Scheduler_periodic.cfg", sig_of, nontrivial,
